@@ -70,7 +70,7 @@ claim('C02', 'Coq proof: certified exhaustive exploration per catalogue program 
       E_NOTE + ' Not exhibited: a body or collaborator call that never returns (outside the statement).', design='4 (C02)')
 claim('C03', 'Coq proof by certified exhaustive exploration per catalogue program (arguments held by the retry-loop frames = reference arguments, all schedules) + oracle on every body invocation of the real engine against the extracted reference + correspondence',
       'Theorems C03_catalogue, C03_arguments_are_reference_arguments (Properties/C03.v): for each clean catalogue program and every schedule, the keyword arguments a body is / was / will again be invoked with (frames of the retry loop of every task) are '
-      'exactly arguments the reference semantics passes to that node: one keyword per declared parameter carrying the final value of the declared input, never a failure object, a Recurrent marker or a placeholder. '
+      'exactly arguments the reference semantics passes to that node: one keyword per declared parameter carrying the final value of the declared input, never a failure object, a Recurrent marker or a placeholder. Kind F theorem C03_on_plain_programs_no_failure_object_or_marker_as_argument: for ALL plain programs and all schedules no body / get_default invocation (inline ones included: the statement is on the trace) has a failure object or Recurrent marker among its arguments. '
       'On every run every logged body invocation of the real engine (kwargs by value) is matched against the reference log.',
       E_NOTE + ' Limitation of the frame formulation: a body that does not suspend (inline / immediate mode) never rests in a frame between loop steps; those invocations are covered by the implementation oracle and the trace correspondence only.', design='4 (C03)')
 claim('C04', 'Coq proof by certified exhaustive exploration per catalogue program (invocation counters bounded by the reference, all schedules) + oracle on invocation counts of the real engine + correspondence',
@@ -96,7 +96,7 @@ claim('C11', 'Coq proof by certified exhaustive exploration per catalogue progra
       E_NOTE, design='4 (C11)')
 claim('C19', 'Coq proof by certified exhaustive exploration per catalogue program (save counters and saved values; all schedules) + oracle on the recording / write-once store of the real engine + correspondence',
       'Theorems C19_catalogue, C19_saved_at_most_once (Properties/C19.v): for each clean catalogue program (with a gated write-once store on a rhombus, on a switch with a shared selected case and on a one-of with a failing candidate) and every schedule: no node id is saved twice, '
-      'nothing handed to the store is a Recurrent marker or a contained failure, a write-once store never makes the run fail. On every run the saves seen by a recording / write-once store on the real engine are compared with the values consumers received.',
+      'nothing handed to the store is a Recurrent marker or a contained failure, a write-once store never makes the run fail. Kind F theorem C19_on_plain_programs_no_marker_or_failure_is_saved: for ALL plain programs (no switch / one-of / iteration request; any size, settings, collaborators) and all schedules nothing handed to the store is a Recurrent marker or a failure. On every run the saves seen by a recording / write-once store on the real engine are compared with the values consumers received.',
       E_NOTE + ' Known finding D15d (one save per iteration inside a recurrent subgraph) is tolerated on programs with a recurrent subgraph only.', design='4 (C19)')
 claim('C07', 'Coq proof (each run of a history is the single run of a fresh chart under its own schedule: projection theorem over the free interleaving of per-run machines, all programs; outcomes on the catalogue by certified exploration) + history correspondence with deep snapshots of the real chart',
       'Theorems C07_each_run_is_a_fresh_run (all programs, all histories / interleavings) and C07_history_outcomes (catalogue programs: the k-th run yields what the reference gives) in Properties/C07.v. '
